@@ -29,6 +29,38 @@ import os
 _TRACE = bool(os.environ.get("FVC_TRACE"))
 
 
+class AnchorNotFound(SymError):
+    pass
+
+
+def find_fragment(sources, module, qualname, patterns):
+    import ast
+    got = sources.load(module)
+    if got is None:
+        raise AnchorNotFound(f"anchor-not-found: module {module}")
+    node = got[0]
+    for part in qualname.split("."):
+        for ch in ast.iter_child_nodes(node):
+            if isinstance(ch, (ast.FunctionDef, ast.ClassDef)) and ch.name == part:
+                node = ch
+                break
+        else:
+            raise AnchorNotFound(f"anchor-not-found: {module}:{qualname}")
+    out = []
+    for pat in patterns:
+        hit = None
+        for n in ast.walk(node):
+            if isinstance(n, ast.stmt):
+                txt = ast.unparse(n)
+                if txt.startswith(pat):
+                    hit = n
+                    break
+        if hit is None:
+            raise AnchorNotFound(f"anchor-not-found: statement starting with {pat!r} in {module}:{qualname}")
+        out.append(hit)
+    return out
+
+
 class PathInfeasible(Exception):
     pass
 
@@ -221,6 +253,17 @@ class SymCtx:
                 return r.exc
             raise
         return None
+
+    def fragment(self, module, qualname, patterns):
+        """statement contract: the statements of function `qualname` whose source text (ast.unparse) starts with one
+        of `patterns`, in source order (structural anchors, no line numbers); AnchorNotFound if one is missing"""
+        return find_fragment(self.ex.sources, module, qualname, patterns)
+
+    def run_fragment(self, module, stmts, env):
+        m = self.module(module)
+        e = I.Env(m.env, dict(env))
+        self.it.exec_block(stmts, e, m, None)
+        return e.vars
 
     def alloc(self, cls, **attrs):
         """an instance of a repo class without running its constructor (frame conditions are set by the harness)"""
@@ -455,6 +498,17 @@ class NativeCtx:
     def item(self, obj, key): return obj[key]
     def call(self, f, *a, **k): return f(*a, **k)
     def callm(self, obj, name, *a, **k): return getattr(obj, name)(*a, **k)
+
+    def fragment(self, module, qualname, patterns):
+        return find_fragment(Sources(), module, qualname, patterns)
+
+    def run_fragment(self, module, stmts, env):
+        import ast, importlib
+        g = dict(vars(importlib.import_module(module)))
+        g.update(env)
+        code = compile(ast.fix_missing_locations(ast.Module(body=list(stmts), type_ignores=[])), f"<fragment of {module}>", "exec")
+        exec(code, g)
+        return g
 
     def alloc(self, cls, **attrs):
         o = object.__new__(cls)
